@@ -1,7 +1,10 @@
 mod alloc;
+mod backend;
 mod out;
 mod pure;
 mod rng;
+mod table;
+mod xxh;
 
 pub struct Args {
     pub cmd: String,
@@ -38,6 +41,8 @@ fn main() {
     match args.cmd.as_str() {
         "alloc" => alloc::run(&args),
         "pure" => pure::run(&args),
+        "table" => table::run(&args),
+        "xxh" => xxh::run(&args),
         other => {
             eprintln!("unknown command {other}");
             std::process::exit(2);
